@@ -76,3 +76,22 @@ pub use chunk_timing_stats::*;
 mod search;
 
 const REALTIME_BUCKET: &str = "unidata-nexrad-level2-chunks";
+
+/// Verification hooks exposing crate-private routines to an external harness. Off by default.
+#[cfg(feature = "verif-hooks")]
+pub mod verif_hooks {
+    use std::future::Future;
+
+    /// Forwards to the crate-private rotated-array search used by `get_latest_volume`.
+    pub async fn search<F, V>(
+        element_count: usize,
+        target: V,
+        f: impl FnMut(usize) -> F,
+    ) -> crate::result::Result<Option<usize>>
+    where
+        F: Future<Output = crate::result::Result<Option<V>>>,
+        V: PartialOrd + Clone,
+    {
+        super::search::search(element_count, target, f).await
+    }
+}
